@@ -306,7 +306,7 @@ class C45(Check):
                    "MPFR and MPC entry points are correctly rounded as documented; the MPC declaration shim "
                    "(hooks/mpc_shim/mpc.h) matches the installed libmpc.so.3 ABI (the repository's own MPC tests pass)",
                    "library exceptions decline a case"]
-    tiers = {"quick": {"examples": 5200}, "thorough": {"examples": 200000}}
+    tiers = {"quick": {"examples": 8000}, "thorough": {"examples": 200000}}
 
     def setup_worker(self, tier):
         opn.activate_extra_findings(self)
@@ -454,8 +454,12 @@ class C45(Check):
         except Violation:
             if swapped == "beta" and self.tag_active(TAG_BETA):
                 self.skip("known:" + TAG_BETA)
+                self.cls("mpfr_excluded_known:Beta")
             elif swapped is True and self.tag_active(TAG_ASEC):
                 self.skip("known:" + TAG_ASEC)
+                for h in ("ASec", "ACsc"):
+                    if h in heads:
+                        self.cls("mpfr_excluded_known:" + h)
             else:
                 raise
         fac = 1 if cm else 2
@@ -564,18 +568,32 @@ class C45(Check):
             if y[1] == 0 and y[0].denominator == 1 and abs(y[0]) <= 64:
                 exact = cpow_int(x, int(y[0]))
             else:
-                with mp.workprec(P + 96 + 64):
-                    xb = mpc(opn.to_mpf(x[0]), opn.to_mpf(x[1])) if x[1] != 0 else opn.to_mpf(x[0])
-                    ye = mpc(opn.to_mpf(y[0]), opn.to_mpf(y[1])) if y[1] != 0 else opn.to_mpf(y[0])
-                    try:
-                        if abs(ye * mp.log(xb)) > 2000:
-                            self.skip("pow_magnitude")
+                W = P + 96 + 64
+                for attempt in (0, 1):
+                    with mp.workprec(W):
+                        xb = mpc(opn.to_mpf(x[0]), opn.to_mpf(x[1])) if x[1] != 0 else opn.to_mpf(x[0])
+                        ye = mpc(opn.to_mpf(y[0]), opn.to_mpf(y[1])) if y[1] != 0 else opn.to_mpf(y[0])
+                        try:
+                            if abs(ye * mp.log(xb)) > 2000:
+                                self.skip("pow_magnitude")
+                                return
+                            hp = mpc(mp.exp(ye * mp.log(xb)))
+                            lnb = abs(mp.log(xb))
+                        except (ValueError, ZeroDivisionError, OverflowError):
+                            self.skip("pow_oracle_failed")
                             return
-                        hp = mpc(mp.exp(ye * mp.log(xb)))
-                        lnb = abs(mp.log(xb))
-                    except (ValueError, ZeroDivisionError, OverflowError):
-                        self.skip("pow_oracle_failed")
-                        return
+                        # a component much smaller than the modulus is only known to W - log2(|hp|/|component|)
+                        # bits: recompute once with that many more
+                        lost = 0
+                        for v in (hp.real, hp.imag):
+                            if v != 0 and abs(hp) > abs(v):
+                                lost = max(lost, int(mp.log(abs(hp) / abs(v), 2)) + 1)
+                    if lost <= 32 or attempt == 1:
+                        break
+                    if lost > 4000:
+                        break
+                    W += lost + 32
+                pow_lost = lost if (lost > 32 and W < P + 160 + lost) else 0
         if kr == "nonfinite":
             raise Violation("%s returned the non-finite %s; operands %s, %s" % (desc, dr, da, db), {"case": case})
         complex_result = x[1] != 0 or y[1] != 0 or (base == "pow" and x[0] < 0 and not (y[0].denominator == 1))
@@ -604,7 +622,7 @@ class C45(Check):
                     want.append(opn.round_nearest_even(exact[c], P))
                 else:
                     v = hp.real if c == 0 else hp.imag
-                    if v == 0 or abs(v) < abs(hp) * mpf(2) ** -(P + 40):
+                    if v == 0 or abs(v) < abs(hp) * mpf(2) ** -(P + 40) or pow_lost:
                         if not complex_result and c == 1:
                             want.append(Fraction(0))
                             continue
@@ -663,6 +681,10 @@ class C45(Check):
                         ye = abs(mpc(opn.to_mpf(y[0]), opn.to_mpf(y[1])))
                         k = ye * (1 + lnb)
                         cv = 4 * tnm * (k + 1) * mpf(2) ** -P
+                    if (k + 1) * mpf(2) ** -P > mpf(2) ** -10:
+                        # the rounding of the converted operand is not a small perturbation of the power
+                        self.skip("pow_conversion_not_first_order")
+                        return
                     conv = [cv, cv]
                 for c in (0, 1):
                     if exact is not None:
@@ -691,7 +713,7 @@ class C45(Check):
     def _div_composite(self, desc, got, exact, P, pd, da, db, case):
         tn = max(abs(exact[0]), abs(exact[1]))
         for c in (0, 1):
-            bound = 8 * tn * Fraction(1, 2 ** min(pd, P))
+            bound = 64 * tn * Fraction(1, 2 ** min(pd, P))
             if exact[c] != 0:
                 bound += 2 * opn.ulp(exact[c], P)
             if abs(got[c] - exact[c]) > bound:
@@ -737,7 +759,7 @@ def main():
         with open(name) as f:
             ev = json.load(f)
         cl = ev["coverage"]["classes"]
-        miss = ["eval_mpfr:" + n for n in MPFR_NODES if not cl.get("mpfr:" + n)]
+        miss = ["eval_mpfr:" + n for n in MPFR_NODES if not cl.get("mpfr:" + n) and not cl.get("mpfr_excluded_known:" + n)]
         miss += ["eval_mpc:" + n for n in MPC_NODES if not cl.get("mpc:" + n)]
         print("coverage: missing node types: %s" % (miss or "none"))
         if miss:
